@@ -61,19 +61,60 @@ def _lossy(v):
     return v
 
 
-def encode(value, unpicklable=True, **kw):
-    if _has_unserializable(value):
+_ATOMS = (int, str, bytes, bool, type(None), float, type)
+
+
+def cp(v, check=False):
+    """deep copy of a value tree (immutable leaves - including symbolic ints/strs - are shared); with check=True a
+    value the serializer would reject raises TypeError.  Much cheaper under CrossHair than copy.deepcopy."""
+    if isinstance(v, _ATOMS):
+        return v
+    t = type(v)
+    if t is list:
+        return [cp(x, check) for x in v]
+    if t is tuple:
+        return tuple([cp(x, check) for x in v])
+    if t is dict:
+        items = [(k, cp(x, check)) for k, x in v.items()]
+        if check and all(type(k) is str for k, _ in items):
+            # measured: jsonpickle 0.9.3 emits JSON objects with sorted keys, so a decoded dict iterates in key order
+            # (only applied to plain concrete key texts; symbolic key texts keep insertion order)
+            items.sort(key=lambda kv: kv[0])
+        return dict(items)
+    if t is set:
+        return set([cp(x, check) for x in v])
+    if isinstance(v, Unserializable):
+        if check:
+            raise TypeError('value is not serializable (model)')
+        return v
+    if hasattr(v, '__deepcopy__'):
+        if check and _has_unserializable(v):
+            raise TypeError('value is not serializable (model)')
+        return copy.deepcopy(v)
+    d = getattr(v, '__dict__', None)
+    if isinstance(d, dict) and not isinstance(v, type) and not callable(v):
+        new = t.__new__(t)
+        if isinstance(v, BaseException):
+            new.args = cp(v.args, check)
+        new.__dict__.update(dict([(k, cp(x, check)) for k, x in d.items()]))
+        return new
+    if check and _has_unserializable(v):
         raise TypeError('value is not serializable (model)')
+    return copy.deepcopy(v)
+
+
+def encode(value, unpicklable=True, **kw):
+    stored = cp(value if unpicklable else _lossy(value), True)
     _N[0] += 1
     tok = 'blob:%d' % _N[0]
-    _TABLE[tok] = copy.deepcopy(value if unpicklable else _lossy(value))
+    _TABLE[tok] = stored
     return tok
 
 
 def decode(tok, **kw):
     if isinstance(tok, bytes):
         tok = tok.decode('utf-8')
-    return copy.deepcopy(_TABLE[tok])
+    return cp(_TABLE[tok])
 
 
 def peek(tok):
